@@ -1135,7 +1135,8 @@ def _build_tuple(
     in_subscript: bool = False,
     **kwargs: Any,
 ) -> Expr:
-    return ExprTuple([_build(el, parent, **kwargs) for el in node.elts], implicit=in_subscript)
+    # An empty tuple cannot be implicit: `a[()]` without parentheses is not valid Python.
+    return ExprTuple([_build(el, parent, **kwargs) for el in node.elts], implicit=in_subscript and bool(node.elts))
 
 
 def _build_unaryop(node: ast.UnaryOp, parent: Module | Class, **kwargs: Any) -> Expr:
